@@ -46,7 +46,9 @@ PROPERTIES = {
                 "path after a successful Connect - cancelled before Run, during Connect, while running, or a goroutine "
                 "failed - the connection has been closed and every goroutine of the group has returned "
                 "(C14_run_returns_clean); initial states with the flag already set and no wake-up token (role RoleTxOn) "
-                "are covered by every invariant (C14_enabled_parked_is_armed). Tie to the code: logged traces of forced schedules incl. real 1 ms tickers must be "
+                "are covered by every invariant (C14_enabled_parked_is_armed); a ticker exists only for send type cyclic AND "
+                "cycle time > 0, any other message transmits on request only (C14_armed_implies_eligible, "
+                "C14_not_eligible_frames_are_requests). Tie to the code: logged traces of forced schedules incl. real 1 ms tickers must be "
                 "accepted by the extracted step_fn and, decorated with the observed deadlines and clock readings, by the "
                 "extracted tstep; whole-node scenarios with the GENERATED example node over a unix socket "
                 "and net.Pipe check counts, toggles, return values, closed connection and goroutine leaks, incl. hooks "
@@ -70,19 +72,26 @@ RULES = {
            "model trace lets fail are given the shapes remote / extended / wrong length / scripted failure in turn); (b) 7 fixed "
            "scenarios (receiver + 1..2 transmitters + 1..3 application threads; hooks that lock and mutate; hook / transmit / "
            "unmarshal errors; remote, extended and wrong-length frames with known and unknown IDs; a transmitter started "
-           "with the flag already set; cancel races) with every combination of choices inside sliding windows of 3 consecutive "
+           "with the flag already set; cancel races) and the never-a-ticker scenarios (send type event / none with cycle times "
+           "1 ns / 0.3 ms / 1 ms, send type cyclic with cycle time 0: enabled, enabled again, disabled, enabled, event request; a "
+           "panic of a runner function is caught and logged as PN) with every combination of choices inside sliding windows of 3 consecutive "
            "scheduling decisions, seeded random scenarios under seeded random schedules; distinct by line hash; every "
            "trace counts as non-trivial (each contains lock sections of at least two threads); (c) debug HTTP handlers of the "
            "generated MOTOR and DRIVER nodes (Rx and Tx): not served while the application holds the node lock, the lock is "
            "held while a page is served (handshake inside the ResponseWriter), the page shows both signals of an update",
-    "C14": "as C13 (incl. the forced model traces) plus schedules with a real 1 ms ticker (ticks nondeterministic, hidden Tick/TickTake inferred) and the "
+    "C14": "as C13 (incl. the forced model traces) plus schedules with a real ticker of 1 ms and of 1 ns (ticks nondeterministic, hidden "
+           "Tick/TickTake inferred; NT = no tick for more than a second while the model's ticker is armed and the loop parked), "
+           "tick-triggered transmissions whose hook / TransmitFrame fails (k-th invocation, enabled by toggle or from the start), "
+           "the role of every transmitter computed by the model from the descriptor's send type and cycle time (ticker_eligible), and the "
            "whole-node scenarios with the generated DRIVER node (event exactly-once, toggles while parked/busy, receive "
            "order, failing rx hook / tx hook / unmarshal / transmit / Connect, cancel while running / before Run / during "
            "Connect, before-transmit hooks slower than the send timeout for an event request and for cyclic ticks, event "
            "requests to each transmitted message in turn with frames attributed per message ID, run / cancel / run again "
            "on the same node value (enabled in run 1 -> run 2 transmits without a new toggle; disabled -> silent; enabled "
            "while nothing runs -> next run transmits), remote / extended / wrong-length / well-formed frames with a known ID "
-           "(SH lines: receiver stops iff the model's shape_accepts is false), K1) "
+           "(SH lines: receiver stops iff the model's shape_accepts is false), a failing hook / write on a cycle tick (Run returns that "
+           "error, hook not invoked again, no further frame), cyclic transmission enabled on messages that must not get a ticker "
+           "(event / none with a cycle time, cyclic without), enabling again every 12 ms with a 40 ms cycle time, K1) "
            "over a unix socket and net.Pipe; every transmission of every trace additionally carries the deadline the "
            "frame transmitter was handed (coverage.kinds.deadlines_checked; event messages with cycle times 0 / 0.7 ms / "
            "2 ms / 40 ms / 250 ms / 3 s, runner clock skewed by 0 / -1 h / +1 h / -3 ms from the system clock); one case "
@@ -230,3 +239,33 @@ def _run_with_model_traces(res, pid, mode, quick, args, gen_dir):
         corr_name="every logged trace of the real runner under forced schedules is accepted by the extracted step_fn and "
                   "satisfies the trace predicates (harness/runner | ocaml/runner_main.ml %s)" % mode)
     res.cov["model_exploration"] = explo
+    _explain_crash(res)
+
+
+def _explain_crash(res):
+    """If the harness process died with a Go panic (a panic inside a goroutine started by the code under test cannot
+    be recovered by the harness), say WHICH call panicked: the panic text, the first frames of the stack that are in
+    code under test and the whole-node scenario that was running go into the violation text and into the replay."""
+    for k, (what, replay, no_input) in enumerate(res.violations):
+        if not (isinstance(replay, dict) and what.startswith("implementation harness or model driver failed")):
+            continue
+        err = replay.get("stderr", "")
+        m = re.search(r"^(panic: .*|fatal error: .*)$", err, re.M)
+        if not m:
+            continue
+        lines = err[m.start():].splitlines()
+        frames = []
+        for i in range(1, len(lines)):
+            if lines[i].startswith("\t") and not lines[i - 1].startswith("\t"):
+                frames.append((lines[i - 1].strip(), lines[i].strip().split(" +")[0]))
+        under_test = [f for f in frames if "go.einride.tech/can/" in f[0] and "cmd/verif_runner" not in f[1]]
+        scen = re.findall(r"^verif_runner: (whole-node scenario .*)$", err[:m.start()], re.M)
+        call = "%s at %s" % under_test[0] if under_test else ("%s at %s" % frames[0] if frames else "?")
+        text = ("the harness process CRASHED with a Go %s ; failing call%s: %s ; while running: %s"
+                % (m.group(1), " (first frame inside the code under test)" if under_test else "", call,
+                   scen[-1] if scen else "the step-controlled schedules (no whole-node scenario started yet)"))
+        replay = dict(replay, panic=lines[:30], failing_call=call, frames_in_code_under_test=["%s at %s" % f for f in under_test[:8]],
+                      scenario=scen[-1] if scen else None,
+                      how_to_reproduce="build harness/runner into the tree (go build -overlay, see vlib.build_harness) and run it "
+                                       "with the arguments of this check; the panic is deterministic for the named scenario")
+        res.violations[k] = (text, replay, False if under_test else no_input)
